@@ -164,6 +164,28 @@ fn driver_history(p: &std::path::PathBuf, text: &str, other: Option<&std::path::
     match r { Ok(v) => v, Err(_) => Some("driver panicked where the direct pipeline did not".to_string()) }
 }
 
+// ------------------------------------------------------------------------------------------------
+// (e) the `scc` binary itself: what `scc compile|focus|shrink|linearize` prints on standard output must not depend
+// on the environment - a pipe, a 60-column and a 170-column terminal (lib/pty_run.py) must show the same text.
+// ------------------------------------------------------------------------------------------------
+fn tty_independence(scc: &std::path::Path, file: &std::path::Path) -> Option<String> {
+    let helper = format!("{}/lib/pty_run.py", pipe::verif_root());
+    for stage in ["compile", "focus", "shrink", "linearize"] {
+        let piped = std::process::Command::new(scc).arg("-n").arg(stage).arg(file).current_dir(file.parent().unwrap()).output().ok()?;
+        if !piped.status.success() { return None; }
+        let piped = String::from_utf8_lossy(&piped.stdout).to_string();
+        for cols in ["60", "170"] {
+            let o = std::process::Command::new("python3").arg(&helper).arg(cols).arg(scc).arg("-n").arg(stage).arg(file)
+                .current_dir(file.parent().unwrap()).output().ok()?;
+            let t = String::from_utf8_lossy(&o.stdout).to_string();
+            if t.trim_end() != piped.trim_end() {
+                return Some(format!("`scc {stage}` prints different text on a {cols}-column terminal than into a pipe"));
+            }
+        }
+    }
+    None
+}
+
 fn is_asm(stage: &str) -> bool { stage == "x86_64" || stage == "aarch64" || stage == "rv64" }
 
 pub fn cmd_stages_text(path: &str) {
@@ -253,6 +275,13 @@ pub fn cmd_determinism(seed: u64, n: usize, out: &mut dyn Write, dirs: &[String]
             let asm_ref: Vec<(String, String)> = stages_text(text).unwrap_or_default().into_iter().filter(|(s, _)| is_asm(s)).collect();
             if let Some(d) = driver_history(&p, text, other.as_ref(), &asm_ref, k) {
                 verdict = format!("(viol {})", quote(&format!("class=nondeterministic-output driver-history: {d}")));
+            }
+        }
+        if !verdict.starts_with("(viol") && k < 6 {
+            if let Ok((scc, _)) = crate::cmd_robust::find_scc(false) {
+                if let Some(d) = tty_independence(&scc, &p) {
+                    verdict = format!("(viol {})", quote(&format!("class=nondeterministic-output environment: {d}")));
+                }
             }
         }
         if verdict.starts_with("(viol") {
